@@ -373,6 +373,30 @@ def gen_dwcorner_case(ctx, thorough):
             "peak": [0.5] * dim, "sharp": 4}
 
 
+def gen_dwraise_case(ctx, thorough):
+    """directed "raise-all" family inside the class proved safe for the clean code (rebalancing off, dim 2): every round
+    refines the outermost interval at one end of the listed dimensions (= a deepest interval there), every dimension is
+    hit at least once, so lmax is raised in EVERY dimension while untouched regions keep their initial local maximum
+    level (= lmax0); version 3 (whose rounding rule depends on that local maximum level) most of the time"""
+    r = ctx.rng
+    dim = 2
+    lmin, lmax = r.choice([(1, 3), (1, 3), (1, 3), (1, 2), (2, 4)])
+    nrounds = r.randint(2, 4)
+    table = []
+    for k in range(nrounds):
+        ds = [d for d in range(dim) if r.random() < 0.6] or [r.randrange(dim)]
+        table.append([[d, r.randint(0, 1)] for d in ds])
+    missing = [d for d in range(dim) if not any(x[0] == d for rnd in table for x in rnd)]
+    for d in missing:
+        table[r.randrange(nrounds)].append([d, r.randint(0, 1)])
+    return {"strategy": "dw", "family": "raise", "dim": dim, "lmin": lmin, "lmax": lmax,
+            "dom": [list(r.choice(DOMAINS)) for _ in range(dim)],
+            "version": r.choice([3, 3, 3, 6, 7, 8]), "rebalancing": False, "boundary": r.random() < 0.7, "modified": False,
+            "margin": r.choice([0.9, 1.0]), "estimator": "scripted", "seed": r.randrange(10 ** 9), "power": 1,
+            "rounds": [1] * nrounds, "table": table, "per_level": 2,
+            "peak": [0.5] * dim, "sharp": 4, "reeval": r.random() < 0.2}
+
+
 def dw_state_lines(sa, case):
     """scheme, index set and the table (dimension, component level) -> node list as the implementation computes them"""
     dim = case["dim"]
@@ -416,6 +440,19 @@ def check_subtraction_clip(ctx, drv, rec, sa, case, stop, thr_cache):
                 if sub != int(sub) or sub > lv[d] - lmin:
                     rec.violation("dw-subtraction-clip", "clip", {"stop": stop, "levelvec": lv, "dimension": d, "interval": i, "subtraction_value": float(sub), "bound": lv[d] - lmin})
                     return
+                # Model/DimWise.subValue on the observed inputs (version, dim, d, lmin, lmax_d, max_coarsenings, local
+                # max level, l_d); version 3 rounds in floats: exact for dim 2 (halves), compared there only
+                if case["version"] in (6, 7, 8) or dim == 2:
+                    ml = int(sa.max_level_dict[(d, i)])
+                    skey = ("subv", case["version"], dim, d, lmin, int(sa.lmax[d]), tuple(int(x) for x in max_coarsenings), ml, lv[d])
+                    if skey not in thr_cache:
+                        thr_cache[skey] = drv.ask("subv %d %d %d %d %d %s %d %d" % (skey[1], dim, d, lmin, skey[5], vec_str(skey[6]), ml, lv[d]))
+                    ctx.count("dw_subtraction_values_vs_model")
+                    if thr_cache[skey] != str(int(sub)):
+                        rec.corr("dw/subtraction-value", {"stop": stop, "levelvec": lv, "dimension": d, "interval": i, "max_level": ml,
+                                                          "lmax": [int(x) for x in sa.lmax], "max_coarsenings": [int(x) for x in max_coarsenings],
+                                                          "impl": int(sub), "model": thr_cache[skey]})
+                        return
                 key = (lv[d], int(sub), lmin)
                 if key not in thr_cache:
                     thr_cache[key] = drv.ask("thr %d %d %d" % key)
@@ -1075,8 +1112,8 @@ def run_unit_1d(ctx, drv, n):
 
 
 # ------------------------------------------------------------------------------------------------ entry points
-RUNNERS = {"dw": run_dw, "es": run_es, "cell": run_cell, "escont": run_escont, "esmulti": run_es, "esgrid": run_es, "dwcorner": run_dw}
-GENERATORS = {"dw": gen_dw_case, "es": gen_es_case, "cell": gen_cell_case, "escont": gen_escont_case, "esmulti": gen_esmulti_case, "esgrid": gen_esgrid_case, "dwcorner": gen_dwcorner_case}
+RUNNERS = {"dw": run_dw, "es": run_es, "cell": run_cell, "escont": run_escont, "esmulti": run_es, "esgrid": run_es, "dwcorner": run_dw, "dwraise": run_dw}
+GENERATORS = {"dw": gen_dw_case, "es": gen_es_case, "cell": gen_cell_case, "escont": gen_escont_case, "esmulti": gen_esmulti_case, "esgrid": gen_esgrid_case, "dwcorner": gen_dwcorner_case, "dwraise": gen_dwraise_case}
 
 
 def run(ctx):
@@ -1111,7 +1148,7 @@ def run(ctx):
             import traceback
             ctx.corr_break("C04/corpus-case", {"file": os.path.basename(path)}, traceback.format_exc()[-1500:])
     budget = 85 if not thorough else 600
-    mix = ["dw", "es", "dw", "esgrid", "cell", "esmulti", "dw", "es", "dwcorner", "dw", "dw", "cell", "esgrid", "es", "dw", "escont", "esmulti"]
+    mix = ["dw", "es", "dw", "esgrid", "cell", "esmulti", "dw", "es", "dwcorner", "dwraise", "dw", "dw", "cell", "esgrid", "es", "dw", "dwraise", "escont", "esmulti"]
     k = 0
     while ctx.time_left(budget) > 0 and k < (400 if not thorough else 6000):
         strat = mix[k % len(mix)]
